@@ -64,6 +64,8 @@ type Item struct {
 	// ErrCalls lists error constructors (e.g. "errors.New"); the k-th such call
 	// in source order (k = 1..) is translated to the integer ErrBase + k.
 	ErrCalls []string `json:"errcalls"`
+	// Pkgs maps a package identifier used in File to its directory (kind "switchtable", ext_switch.go).
+	Pkgs map[string]string `json:"pkgs"`
 	ErrBase  int      `json:"errbase"`
 }
 
@@ -972,6 +974,8 @@ func main() {
 				extMtItem(&sb, *repo, it, pc) // ext_mtproto.go
 			case "blockops":
 				extBlockOps(&sb, *repo, it) // ext_blockops.go
+			case "switchtable":
+				extSwitchTable(&sb, *repo, it, pc) // ext_switch.go
 			default:
 				die("unknown item kind %q", it.Kind)
 			}
